@@ -824,4 +824,57 @@ def rfcEdge : RfcSt → RfcSt → Bool
   | .closed, .closed => true
   | _, _ => false
 
+
+/-! ## SETTINGS from the peer: what they may change -/
+
+/-- sozu's own (advertised) settings and what the peer announced -/
+structure SettingsState where
+  /-- `local_settings`: advertised by sozu; every `frame_header` call takes its `settings_max_frame_size` -/
+  localS : Settings
+  /-- `peer_settings`: bounds on what sozu *sends* -/
+  peerS : Settings
+deriving Repr
+
+/-- `H2Settings::default()` on both sides (the numbers sozu advertises) -/
+def SettingsState.init : SettingsState :=
+  let d : Settings :=
+    { headerTableSize := 4096, enablePush := false, maxConcurrentStreams := Consts.h2DefaultMaxConcurrentStreams,
+      initialWindowSize := Consts.h2DefaultInitialWindowSize, maxFrameSize := Consts.h2DefaultMaxFrameSize,
+      maxHeaderListSize := Consts.h2MaxHeaderListSize, enableConnectProtocol := false, noRfc7540Priorities := true }
+  { localS := d, peerS := d }
+
+/-- one entry of a non-ACK SETTINGS frame (`handle_settings_frame`): the new
+    state and whether the entry is invalid (then GOAWAY(PROTOCOL_ERROR)).
+    `tableCap` is `H2FloodConfig::max_header_table_size`. Only `peerS` is written. -/
+def applyPeerSetting (s : SettingsState) (tableCap : Nat) (id v : Nat) : SettingsState × Bool :=
+  if id = Consts.h2SettingsIdHeaderTableSize then
+    ({ s with peerS := { s.peerS with headerTableSize := min v tableCap } }, false)
+  else if id = Consts.h2SettingsIdEnablePush then
+    ({ s with peerS := { s.peerS with enablePush := v == 1 } }, decide (v > 1))
+  else if id = Consts.h2SettingsIdMaxConcurrentStreams then
+    ({ s with peerS := { s.peerS with maxConcurrentStreams := v } }, false)
+  else if id = Consts.h2SettingsIdInitialWindowSize then
+    if v > Consts.h2FlowControlMaxWindow then (s, true)
+    else ({ s with peerS := { s.peerS with initialWindowSize := v } }, false)
+  else if id = Consts.h2SettingsIdMaxFrameSize then
+    ({ s with peerS := { s.peerS with maxFrameSize := v } },
+      !(decide (Consts.h2MinMaxFrameSize ≤ v) && decide (v < Consts.h2MaxMaxFrameSize)))
+  else if id = Consts.h2SettingsIdMaxHeaderListSize then
+    ({ s with peerS := { s.peerS with maxHeaderListSize := v } }, false)
+  else if id = Consts.h2SettingsIdEnableConnectProtocol then
+    ({ s with peerS := { s.peerS with enableConnectProtocol := v == 1 } }, decide (v > 1))
+  else if id = Consts.h2SettingsIdNoRfc7540Priorities then
+    ({ s with peerS := { s.peerS with noRfc7540Priorities := v == 1 } }, decide (v > 1))
+  else (s, false)
+
+/-- a whole non-ACK SETTINGS frame: entries in order, stop at the first invalid one -/
+def handleSettings (s : SettingsState) (tableCap : Nat) : List (Nat × Nat) → SettingsState × Option Nat
+  | [] => (s, none)
+  | (id, v) :: r =>
+    let t := applyPeerSetting s tableCap id v
+    if t.2 then (t.1, some PROTOCOL_ERROR) else handleSettings t.1 tableCap r
+
+/-- the decoder as a connection in settings state `s` runs it: the bound is sozu's own advertised value -/
+def connDecode (s : SettingsState) (input : Bytes) : Res := decode input s.localS.maxFrameSize
+
 end Sozu.H2Wire
